@@ -16,11 +16,13 @@ From TK Require Import Mat_Sums Mat_Core Mat_Qc Mat_EigSelect EigSelect Mat_EigS
                        Proj_Model Proj_Spec Proj_Proof
                        Pca_Model Pca_Spec Pca_Proof Pca_Proof_Qc Spectral_KyFan Pca_Proof_Opt Spectral_Randomized Pca_Proof_Select Pca_Proof_Sign Pca_Proof_Recon
                        Spectral_GramDual Pca_Proof_Spectrum Proj_Proof_Range Pca_Proof_Scale Spectral_Randomized_Scale
+                       Proj_Proof_Offset Pca_Proof_Offset
                        PcaEmbed Pca_Tie.
 Import ListNotations.
 Local Open Scope nat_scope.
 
-(* 1. compute_covariance_matrix (current code) returns the sample covariance in EVERY entry:
+(* 1. compute_covariance_matrix (current code = after fix F49: centred vectors accumulated; theorem 14 below
+      treats the expanded form shipped before) returns the sample covariance in EVERY entry:
       1/N sum_k (x_k - m)(x_k - m)^T, for every D and every N <> 0 *)
 Theorem C06_cov_is_covariance :
   forall (F : Type) (Fo : FieldOps F) (Ff : IsField F) (N : nat) (X : mat F),
@@ -682,3 +684,52 @@ Theorem C06_randomized_cutoff_scale_refuted :
      gram_schmidt 2 (fun t b => (exrs_c * exrs_Y t b)%Qc) 2 (fun i => (exrs_c * exrs_s i)%Qc) t b = exrs_Y t b).
 Proof. exact gram_schmidt_cutoff_not_scale_invariant. Qed.
 Print Assumptions C06_randomized_cutoff_scale_refuted.
+
+(* ---------------------------------------------------------------------------------------------- *)
+(* Wave 3: data with a large common OFFSET; the centred (current, fix F49) and the expanded         *)
+(* (F8 .. F49) form of compute_covariance_matrix.                                                   *)
+(* 14. Both forms return the sample covariance in every entry — the centred loop for EVERY N, the    *)
+(*     expanded form E[x x^T] - m m^T for N <> 0 — hence they are EQUAL over every exact field (the   *)
+(*     exact model cannot distinguish them), and the list-level loop of the expanded form computes    *)
+(*     its function-level model.  In binary64 the expanded form loses (offset / spread)^2 * eps of      *)
+(*     relative accuracy (catastrophic cancellation), the centred form does not: that difference is    *)
+(*     judged by the check with a tolerance relative to the SPREAD of the data, never to |x|.          *)
+Theorem C06_cov_centred_and_expanded :
+  forall (F : Type) (Fo : FieldOps F) (Ff : IsField F) (N D : nat) (X : mat F) (Xs : list (list F)),
+    (forall i j, pca_matrix N X i j = cov_spec N X i j) /\
+    (of_nat N <> 0%F -> forall i j, pca_matrix_expanded N X i j = cov_spec N X i j) /\
+    (of_nat N <> 0%F -> forall i j, pca_matrix N X i j = pca_matrix_expanded N X i j) /\
+    (wf_mat N D Xs -> pca_matrix_expanded_exec D Xs = POk (mtab D D (pca_matrix_expanded N (mof Xs)))).
+Proof. exact @centred_and_expanded_all. Qed.
+Print Assumptions C06_cov_centred_and_expanded.
+
+Example C06_cov_centred_and_expanded_nonvacuous : @of_nat Qc _ 4 <> 0%F /\ wf_mat 2 2 f8_X.
+Proof. split; [apply Qc_of_nat_neq0; lia|split; [reflexivity|repeat constructor]]. Qed.
+
+(* ... and why the vector handed in as `mean` matters for the centred loop only through the spread: for ANY
+   vector m the two accumulated triangles differ by 2 m m^T - m mean^T - mean m^T (zero iff ... m = mean) *)
+Theorem C06_cov_centred_vs_expanded_any_m :
+  forall (F : Type) (Fo : FieldOps F) (Ff : IsField F) (N : nat) (X : mat F) (m : vec F) (i j : nat),
+    of_nat N <> 0%F ->
+    (read_upper (cov_accumulated_centred N X m) i j - read_upper (cov_accumulated N X m) i j =
+     two * m i * m j - m i * mean_vec N X j - mean_vec N X i * m j)%F.
+Proof. exact @cov_centred_vs_expanded_any_m. Qed.
+Print Assumptions C06_cov_centred_vs_expanded_any_m.
+
+(* 15. offset invariance: moving every sample by the same vector o moves the mean by o and changes NEITHER
+       the covariance (specification, current code, expanded form) NOR the eigen contract NOR the embedding
+       for the same P: every output of PCA is a function of the spread about the mean only *)
+Theorem C06_offset_invariant :
+  forall (F : Type) (Fo : FieldOps F) (Ff : IsField F) (N D d : nat) (o : vec F) (X P : mat F) (lam : vec F),
+    of_nat N <> 0%F ->
+    (forall t, mean_vec N (mtransX o X) t = (mean_vec N X t + o t)%F) /\
+    (forall i j, cov_spec N (mtransX o X) i j = cov_spec N X i j) /\
+    (forall i j, pca_matrix N (mtransX o X) i j = pca_matrix N X i j) /\
+    (forall i j, pca_matrix_expanded N (mtransX o X) i j = pca_matrix_expanded N X i j) /\
+    (eig_contract D d (pca_matrix N X) P lam -> eig_contract D d (pca_matrix N (mtransX o X)) P lam) /\
+    (forall k a, pca_embedding N D (mtransX o X) P k a = pca_embedding N D X P k a).
+Proof. exact @offset_invariant_all. Qed.
+Print Assumptions C06_offset_invariant.
+
+Example C06_offset_invariant_nonvacuous : @of_nat Qc _ 7 <> 0%F.
+Proof. apply Qc_of_nat_neq0. lia. Qed.
